@@ -21,16 +21,20 @@ type T3 struct{ K int }
 // ("engine.t4") can then occur inside (lower-cased) value names, which is what
 // label-collision scenarios need.
 type t4 struct{ K int }
-type t5 struct{ K int }
+
+// t5 is a defined INT type (with methods): not every value in the universe is
+// a struct or a pointer. Its token is the integer itself. It implements I1.
+type t5 int
 
 func (v T0) Token() int { return v.K }
 func (v T1) Token() int { return v.K }
 func (v T2) Token() int { return v.K }
 func (v T3) Token() int { return v.K }
 func (v t4) Token() int { return v.K }
-func (v t5) Token() int { return v.K }
+func (v t5) Token() int { return int(v) }
 
-// I0 is implemented by T0 and T1; I1 by T1 and T2 (so T1 implements both).
+// I0 is implemented by T0 and T1; I1 by T1, T2 and the int-kinded t5 (so T1
+// implements both).
 type I0 interface {
 	Token() int
 	inI0()
@@ -54,6 +58,7 @@ func (T1) inI0() {}
 func (T1) inI1() {}
 func (T2) inI1() {}
 func (T0) inI2() {}
+func (t5) inI1() {}
 
 const (
 	NumConcrete = 6
@@ -67,7 +72,7 @@ const (
 var Types = []reflect.Type{
 	reflect.TypeOf(T0{}), reflect.TypeOf(T1{}), reflect.TypeOf(T2{}),
 	reflect.TypeOf(&T3{}), // a pointer type: values of universe type 3 are *T3
-	reflect.TypeOf(t4{}), reflect.TypeOf(t5{}),
+	reflect.TypeOf(t4{}), reflect.TypeOf(t5(0)),
 	reflect.TypeOf((*I0)(nil)).Elem(), reflect.TypeOf((*I1)(nil)).Elem(),
 	reflect.TypeOf((*I2)(nil)).Elem(),
 }
@@ -112,6 +117,11 @@ func Implementers(iface int) []int {
 
 // MakeValue builds a value of concrete type typ carrying tok.
 func MakeValue(typ, tok int) reflect.Value {
+	if Types[typ].Kind() == reflect.Int {
+		v := reflect.New(Types[typ]).Elem()
+		v.SetInt(int64(tok))
+		return v
+	}
 	if Types[typ].Kind() == reflect.Ptr {
 		p := reflect.New(Types[typ].Elem())
 		p.Elem().Field(0).SetInt(int64(tok))
@@ -145,6 +155,12 @@ func Observe(v reflect.Value) Obs {
 			return Obs{Dyn: -1}
 		}
 		v = v.Elem()
+	}
+	if v.Kind() == reflect.Int {
+		if i := TypeIdx(v.Type()); i >= 0 && i < NumConcrete {
+			return Obs{Tok: int(v.Int()), Dyn: i, Valid: true}
+		}
+		return Obs{Dyn: -1}
 	}
 	i := TypeIdx(v.Type())
 	if i < 0 {
